@@ -22,7 +22,8 @@ import (
 //   robin  the shared round-robin counter (fallback of the header policy) before the first request
 //   reqs   ';' list of requests, a request = '|' list of header lines  <name as sent>:<value hex>  (a header may come on
 //          several lines; the empty request carries none of them)
-//   out    comma list of the backends chosen for the requests TAB counter after the last one
+//   out    comma list of the backends chosen for the requests TAB counter after the last one ;
+//          config-rejected when names is empty (`policy header` without a name) and the block is refused
 //
 // The real code path: proxy.NewStaticUpstreams (Casketfile tokens -> Header{Names}) ; http.ReadRequest on the bytes of the
 // request (net/http canonicalises the header map) ; staticUpstream.Select for every request in turn.
@@ -53,7 +54,7 @@ func c05HdrRequest(lines string) (*http.Request, bool) {
 }
 
 func c05HdrEval(f []string) (string, []string) {
-	if len(f) != 4 || f[0] == "" || f[1] == "" {
+	if len(f) != 4 || f[1] == "" {
 		return "bad-case", nil
 	}
 	names, poolS, robinS := f[0], f[1], f[2]
@@ -65,6 +66,10 @@ func c05HdrEval(f []string) (string, []string) {
 	}
 	cfg := "proxy / " + strings.Join(backends, " ") + " {\n\tpolicy header " + names + "\n}\n"
 	ups, err := proxy.NewStaticUpstreams(casketfile.NewDispenser("Testfile", strings.NewReader(cfg)), "")
+	if err != nil && names == "" {
+		// `policy header` without a name: the configuration is refused
+		return "config-rejected", []string{"policy-header-without-a-name"}
+	}
 	if err != nil || len(ups) != 1 {
 		return fmt.Sprintf("setup-error:%v", err), nil
 	}
@@ -199,6 +204,10 @@ func c05HdrGen(g *hx.Gen) {
 				}
 			}
 		}
+	}
+	// `policy header` without a name
+	for _, pool := range []string{"0/0/0", "0/0/0,0/0/0", "1/0/0,0/0/0,0/2/0", "1/0/0,2/0/0"} {
+		g.Case("", pool, "0", ";"+line("X-Key", "alice")+";"+line("X-Key", "alice"))
 	}
 	// seeded: one or two configured names in a random spelling, pools of 2..7, requests with the header on one or several
 	// lines, absent, empty, under another name; requests repeat
